@@ -797,6 +797,10 @@ func (d *badgerNodeDB) Prune(version uint64) error {
 			}
 			return true
 		})
+		if innerErr == badger.ErrKeyNotFound || err == api.ErrRootNotFound || err == api.ErrNodeNotFound {
+			// Already removed by an earlier interrupted prune of this version.
+			innerErr, err = nil, nil
+		}
 		if innerErr != nil {
 			return innerErr
 		}
